@@ -1,6 +1,121 @@
-import CCT.Model.Auth
-/-! # C01 — threshold soundness (theorems; work in progress) -/
+import CCT.Lemmas.VerifySignable
+/-!
+# C01 — threshold soundness: no acceptance without enough valid authorized signers
+
+Model: `verifySignableJ` (`authentication.py:301-464`).  `Counts` (CCT/Lemmas/Threshold.lean) is the declarative
+"this entry contributes"; `ThresholdMet` says `thr` *distinct* keys each have a counting entry filed under them.
+All statements hold for every `CryptoFns` (no assumption on the signature scheme) and every JSON value.
+-/
 namespace CCT.C01
-open CCT
-theorem placeholder : okU = .ok () := rfl
+open CCT CCT.C15
+open Classical
+
+/-- **soundness**: acceptance implies that the arguments are well typed and that at least `threshold` distinct authorized keys
+each have, filed under their own canonical key string, an entry of the mode's shape whose signature verifies over the canonical
+bytes of exactly the payload presented -/
+theorem verifySignable_sound (C : CryptoFns) (env keys thr : J) (gpg : Bool) (h : verifySignableJ C env keys thr gpg = .ok ()) :
+    ∃ entries signed ks t, EnvParts env entries signed ∧ keys = .arr ks ∧ (∀ k ∈ ks, HexN 64 k) ∧ asInt thr = some t ∧ 0 < t ∧
+      ThresholdMet C gpg (ks.map strOf) (ser signed) entries t.toNat := by
+  by_cases hw : WellTyped env keys thr
+  · obtain ⟨hs, ⟨ks, rfl, hk⟩, t, ht, hpos⟩ := hw
+    obtain ⟨entries, signed, hp⟩ := isSignable_parts hs
+    rw [verifySignable_welltyped C env _ thr gpg entries signed ks t hp rfl hk ht hpos] at h
+    refine ⟨entries, signed, ks, t, hp, rfl, hk, ht, hpos, ?_⟩
+    by_cases hm : ThresholdMet C gpg (ks.map strOf) (ser signed) entries t.toNat
+    · exact hm
+    · simp [hm] at h
+  · rw [verifySignable_illtyped C env keys thr gpg hw] at h; cases h
+
+/-- the only outcomes: accept, argument error, signature error -/
+theorem verifySignable_outcomes (C : CryptoFns) (env keys thr : J) (gpg : Bool) :
+    verifySignableJ C env keys thr gpg = .ok () ∨ verifySignableJ C env keys thr gpg = .error .arg ∨
+    verifySignableJ C env keys thr gpg = .error .signature := by
+  by_cases hw : WellTyped env keys thr
+  · obtain ⟨hs, ⟨ks, rfl, hk⟩, t, ht, hpos⟩ := hw
+    obtain ⟨entries, signed, hp⟩ := isSignable_parts hs
+    rw [verifySignable_welltyped C env _ thr gpg entries signed ks t hp rfl hk ht hpos]
+    by_cases hm : ThresholdMet C gpg (ks.map strOf) (ser signed) entries t.toNat <;> simp [hm]
+  · right; left; exact verifySignable_illtyped C env keys thr gpg hw
+
+/-- signatures by unauthorized keys never contribute -/
+theorem unauthorized_never_counts (C : CryptoFns) (gpg : Bool) (auth : List PStr) (data : Bytes) (k : PStr) (sig : J)
+    (h : k ∉ auth) : ¬ Counts C gpg auth data k sig := fun hc => h hc.2.1
+
+/-- alternative spellings of a key (upper case, whitespace, prefixes, non-ASCII digits, wrong length) never contribute -/
+theorem alternative_spelling_never_counts (C : CryptoFns) (gpg : Bool) (auth : List PStr) (data : Bytes) (k : PStr) (sig : J)
+    (h : ¬ HexN 64 (.str k)) : ¬ Counts C gpg auth data k sig := fun hc => h hc.1
+
+/-- malformed entries never contribute -/
+theorem malformed_never_counts (C : CryptoFns) (gpg : Bool) (auth : List PStr) (data : Bytes) (k : PStr) (sig : J)
+    (h : ¬ (RawShape sig ∨ GpgShape sig)) : ¬ Counts C gpg auth data k sig := by
+  rintro ⟨_, _, h3⟩
+  cases gpg with
+  | true => simp at h3; exact h (Or.inr h3.1)
+  | false => simp at h3; exact h h3.1
+
+/-- in OpenPGP mode a raw-shaped entry never contributes, however valid its signature is over the payload -/
+theorem raw_entry_never_counts_in_gpg_mode (C : CryptoFns) (auth : List PStr) (data : Bytes) (k : PStr) (sig : J)
+    (h : ¬ GpgShape sig) : ¬ Counts C true auth data k sig := by
+  rintro ⟨_, _, h3⟩; simp at h3; exact h h3.1
+
+/-- corrupted signatures, signatures over any other payload and mis-filed entries never contribute: an entry counts only if the
+primitive accepts its signature bytes under *the key it is filed under* for *the bytes of the presented payload* -/
+theorem invalid_never_counts (C : CryptoFns) (auth : List PStr) (data : Bytes) (k : PStr) (sig : J)
+    (h : C.verify (unhex k) data (unhex (strOf (entryField (ps! "signature") sig))) = false) : ¬ Counts C false auth data k sig := by
+  rintro ⟨_, _, h3⟩; simp at h3; rw [h] at h3; exact absurd h3.2 (by simp)
+
+theorem invalid_never_counts_gpg (C : CryptoFns) (auth : List PStr) (data : Bytes) (k : PStr) (sig : J)
+    (h : C.verify (unhex k) (gpgDigest C data (unhex (strOf (entryField (ps! "other_headers") sig))))
+       (unhex (strOf (entryField (ps! "signature") sig))) = false) : ¬ Counts C true auth data k sig := by
+  rintro ⟨_, _, h3⟩; simp at h3; rw [h] at h3; exact absurd h3.2 (by simp)
+
+/-- no key contributes more than once — not even under two spellings: the counted keys are pairwise distinct as *byte strings* -/
+theorem counted_keys_distinct_bytes (C : CryptoFns) (gpg : Bool) (auth : List PStr) (data : Bytes) (entries : List (PStr × J)) (thr : Nat)
+    (h : ThresholdMet C gpg auth data entries thr) :
+    ∃ S : List PStr, (S.map unhex).Nodup ∧ thr ≤ S.length ∧ ∀ k ∈ S, ∃ sig, (k, sig) ∈ entries ∧ Counts C gpg auth data k sig := by
+  obtain ⟨S, hS, hl, hall⟩ := h
+  refine ⟨S, ?_, hl, hall⟩
+  refine nodup_map_on ?_ hS
+  intro a ha b hb hab
+  obtain ⟨_, _, hca⟩ := hall a ha
+  obtain ⟨_, _, hcb⟩ := hall b hb
+  obtain ⟨s, e1, h64a, halla⟩ := hca.1
+  obtain ⟨t, e2, h64b, hallb⟩ := hcb.1
+  cases e1; cases e2
+  exact unhex_injective a b ⟨by intro e; subst e; simp at h64a, by omega, halla⟩ ⟨by intro e; subst e; simp at h64b, by omega, hallb⟩ hab
+
+/-- the verdict depends on the signature map only through its counting entries (used by C06) -/
+theorem thresholdMet_iff_counting (C : CryptoFns) (gpg : Bool) (auth : List PStr) (data : Bytes) (entries entries' : List (PStr × J))
+    (h : ∀ k sig, Counts C gpg auth data k sig → ((k, sig) ∈ entries ↔ (k, sig) ∈ entries')) (thr : Nat) :
+    ThresholdMet C gpg auth data entries thr ↔ ThresholdMet C gpg auth data entries' thr := by
+  constructor
+  · rintro ⟨S, hS, hl, hall⟩
+    exact ⟨S, hS, hl, fun k hk => by obtain ⟨sig, hm, hc⟩ := hall k hk; exact ⟨sig, (h k sig hc).mp hm, hc⟩⟩
+  · rintro ⟨S, hS, hl, hall⟩
+    exact ⟨S, hS, hl, fun k hk => by obtain ⟨sig, hm, hc⟩ := hall k hk; exact ⟨sig, (h k sig hc).mpr hm, hc⟩⟩
+
+/-- a threshold cannot be met by fewer distinct authorized keys than the threshold -/
+theorem threshold_needs_enough_authorized (C : CryptoFns) (gpg : Bool) (auth : List PStr) (data : Bytes) (entries : List (PStr × J)) (thr : Nat)
+    (h : ThresholdMet C gpg auth data entries thr) : ∃ S : List PStr, S.Nodup ∧ thr ≤ S.length ∧ ∀ k ∈ S, k ∈ auth := by
+  obtain ⟨S, hS, hl, hall⟩ := h
+  exact ⟨S, hS, hl, fun k hk => by obtain ⟨_, _, hc⟩ := hall k hk; exact hc.2.1⟩
+
+-- non-vacuity: a toy scheme and a concrete accepted envelope ----------------------------------------------------
+/-- a toy "signature scheme": the signature of `m` under seed `s` is 64 copies of a checksum -/
+def toyC : CryptoFns where
+  verify pub msg sig := sig == List.replicate 64 ((pub.foldl (· + ·) 0 + msg.foldl (· + ·) 0) % 256)
+  sign seed msg := List.replicate 64 ((seed.foldl (· + ·) 0 + msg.foldl (· + ·) 0) % 256)
+  pubOf seed := seed
+  sha256 m := List.replicate 32 (m.foldl (· + ·) 0 % 256)
+
+def k1 : PStr := List.replicate 64 49
+def envOk : J :=
+  .obj [(ps! "signatures", .obj [(k1, .obj [(ps! "signature", .str (hexOfBytes (toyC.sign (unhex k1) (ser (.int 7)))))]),
+                                 (ps! "junk", .str (ps! "x"))]),
+        (ps! "signed", .int 7)]
+example : verifySignableJ toyC envOk (.arr [.str k1]) (.int 1) false = .ok () := by decide +kernel
+example : verifySignableJ toyC envOk (.arr [.str k1]) (.int 2) false = .error .signature := by decide +kernel
+example : verifySignableJ toyC envOk (.arr []) (.int 1) false = .error .signature := by decide +kernel
+example : verifySignableJ toyC envOk (.arr [.str k1]) (.int 1) true = .error .signature := by decide +kernel
+
 end CCT.C01
